@@ -4,6 +4,7 @@ CONSTANT NameSeq <- Seq1
 CONSTANT FShapes <- Trees4
 CONSTANT FFlags <- F9
 CONSTANT FModFlags <- FMod
+CONSTANT Mode = "all"
 CONSTANT MaxScopes = 4
 CONSTANT MaxDepth = 3
 CONSTANT MaxEvStmt = 9
